@@ -16,7 +16,10 @@ def run(chk, F):
         "quantities and are not decided.")
     chk.assume("std/core/alloc callees not in the may-panic list do not panic; allocation failure is out of scope")
     chk.assume("one definitions file drives fewer than 2^31 iterations of any counter (D6)")
-    chk.guard("panic-site", "K1", lambda: k1.run(chk, F, "C13"))
+    res = chk.guard("panic-site", "K1", lambda: k1.run(chk, F, "C13"))
+    if res:
+        chk.guard("loop-leaves-on-eof", "parsers", lambda: k1.eof_exits(chk, F, res[1]))
     chk.guard("cycle-guard", "Resolver::visit", lambda: L.visit_structure(chk, F))
     chk.guard("errors-reported", "load_defs", lambda: L.errors_reported(chk, F))
     chk.guard("temporaries-cleared", "load_defs", lambda: shared_rules.temporaries_cleared(chk, F))
+    chk.guard("definitions-only-for-loaded-units", "load_defs", lambda: L.definitions_only_for_loaded(chk, F))
